@@ -155,6 +155,20 @@ def tail(path, n=40):
         return ""
 
 
+def crash_head(path):
+    """First lines of a Go crash report (fatal error / panic / race header)."""
+    out = []
+    try:
+        lines = open(path, errors="replace").readlines()
+    except OSError:
+        return ""
+    for i, l in enumerate(lines):
+        if l.startswith(("fatal error:", "panic:", "WARNING: DATA RACE", "runtime: goroutine stack exceeds", "WATCHDOG")):
+            out += lines[i:i + 14]
+            break
+    return "".join(out)
+
+
 def base_env(pid, work, tag, tier, seed, excludes, hang_s):
     return goenv({
         "VERIF_PROP": pid,
@@ -206,7 +220,7 @@ def replay_files(binary, pid, work, files, tier, seed, excludes, hang_s, tag):
         # the process died or hung on remaining[0]
         culprit = remaining.pop(0)
         why = {3: "hang (watchdog)", 4: "memory limit (watchdog)", "timeout": "hang (driver timeout)", 66: "data race reported"}.get(rc, f"process died with exit status {rc}")
-        results.append(dict(file=culprit, ok=False, msg=f"{why} while replaying this case\n" + tail(logf, 25)))
+        results.append(dict(file=culprit, ok=False, msg=f"{why} while replaying this case\n" + crash_head(logf) + tail(logf, 12)))
     return results
 
 
